@@ -146,65 +146,79 @@ func goroutineState(id string) (state, stack string) {
 	return state, stack
 }
 
-func guard(names []string, fn func(), dyn ...*[]string) (failed bool) {
-	if OnPanic == nil {
-		fn()
-		return false
-	}
-	done := make(chan bool, 1)
-	gid := make(chan string, 1)
-	go func() {
-		gid <- goroutineID()
-		defer func() {
-			if p := recover(); p != nil {
-				if len(dyn) > 0 {
-					names = *dyn[0]
-				}
-				OnPanic(names, p, string(debug.Stack()))
-				done <- true
-			}
-		}()
-		fn()
-		done <- false
-	}()
-	id := <-gid
+// GoroutineID returns the id of the calling goroutine (for AwaitStep).
+func GoroutineID() string { return goroutineID() }
+
+// AwaitStep waits until fin is closed. It returns "" when that happens, and a description of the hang (plus the
+// stack of the goroutine) when the goroutine id stays blocked at the same place for HangSamples samples after the
+// first look, or keeps running for longer than limit.
+func AwaitStep(id string, fin <-chan struct{}, first, limit time.Duration) (what, stack string) {
 	select {
-	case failed = <-done:
-		return failed
-	case <-time.After(HangTimeout):
+	case <-fin:
+		return "", ""
+	case <-time.After(first):
 	}
 	started := time.Now()
 	same, lastState, lastStack := 0, "", ""
 	for {
-		state, stack := goroutineState(id)
+		state, st := goroutineState(id)
 		blocked := state != "" && state != "running" && state != "runnable" && !strings.HasPrefix(state, "syscall")
-		if blocked && state == lastState && stack == lastStack {
+		if blocked && state == lastState && st == lastStack {
 			same++
 		} else if blocked {
 			same = 1
 		} else {
 			same = 0
 		}
-		lastState, lastStack = state, stack
-		if same >= HangSamples || time.Since(started) > HangCap {
-			if len(dyn) > 0 {
-				names = append([]string{}, (*dyn[0])...)
-			}
-			what := fmt.Sprintf("the step did not return: its goroutine has been blocked (%s) at the same place for %v", state, time.Duration(same-1)*HangSample+HangTimeout)
-			if same < HangSamples {
-				what = fmt.Sprintf("the step is still running after %v", HangCap+HangTimeout)
-			}
-			atomic.StoreInt32(&hung, 1)
-			OnPanic(names, what, "(the goroutine is abandoned)\n"+stack)
-			return true
+		lastState, lastStack = state, st
+		if same >= HangSamples {
+			return fmt.Sprintf("the step did not return: its goroutine has been blocked (%s) at the same place for %v", state, time.Duration(same-1)*HangSample+first), st
+		}
+		if time.Since(started) > limit {
+			return fmt.Sprintf("the step is still running after %v", limit+first), st
 		}
 		select {
-		case failed = <-done:
+		case <-fin:
 			atomic.AddInt64(&SlowSteps, 1)
-			return failed
+			return "", ""
 		case <-time.After(HangSample):
 		}
 	}
+}
+
+func guard(names []string, fn func(), dyn ...*[]string) (failed bool) {
+	if OnPanic == nil {
+		fn()
+		return false
+	}
+	fin := make(chan struct{})
+	gid := make(chan string, 1)
+	var panicked int32
+	go func() {
+		defer close(fin)
+		gid <- goroutineID()
+		defer func() {
+			if p := recover(); p != nil {
+				if len(dyn) > 0 {
+					names = *dyn[0]
+				}
+				atomic.StoreInt32(&panicked, 1)
+				OnPanic(names, p, string(debug.Stack()))
+			}
+		}()
+		fn()
+	}()
+	id := <-gid
+	what, stack := AwaitStep(id, fin, HangTimeout, HangCap)
+	if what == "" {
+		return atomic.LoadInt32(&panicked) == 1
+	}
+	if len(dyn) > 0 {
+		names = append([]string{}, (*dyn[0])...)
+	}
+	atomic.StoreInt32(&hung, 1)
+	OnPanic(names, what, "(the goroutine is abandoned)\n"+stack)
+	return true
 }
 
 // BFS explores all call sequences up to Depth with state deduplication.
